@@ -20,6 +20,7 @@ fi
 rm -f "$S/verif/subject"; ln -s "$S/repo" "$S/verif/subject"
 ( cd "$S/repo" && patch -p1 --no-backup-if-mismatch < "$PATCH" >/dev/null ) || { echo "MUTANT-RESULT patch does not apply"; exit 3; }
 rc_all=0
+if [ -n "${REPLAY_FILE:-}" ]; then ( cd "$S/verif" && VERIF_ROOT="$S/verif" ./check "$1" --tier quick --replay "$REPLAY_FILE" 2>&1 | grep -v "^KNOWN" | tail -${FULL:-60} ); exit 0; fi
 for ID in "$@"; do
   ( cd "$S/verif" && VERIF_ROOT="$S/verif" ./check "$ID" --tier "${TIER:-quick}" > "$S/out.$ID" 2>&1 ); rc=$?
   grep -E "^(VIOLATION|KNOWN-FINDING|MACHINERY)" "$S/out.$ID" | sed "s|$S|<scratch>|g" | head -5
